@@ -259,6 +259,25 @@ impl C08 {
         if let Some((s, e)) = layout.sections.first() {
             suffixes.push(("copy_of_term_section".into(), bytes[*s..*e].to_vec()));
         }
+        // what text tools append to a file: line ends, blanks, an end-of-file mark. Both entry points
+        // (bytes, and a file on disk read by from_binary) must refuse them.
+        for (name, sfx) in [("lf", &b"\n"[..]), ("crlf", &b"\r\n"[..]), ("blank", &b" "[..]), ("lf_lf", &b"\n\n"[..]), ("ctrl_z", &b"\x1a"[..]), ("nul_lf", &b"\0\n"[..])] {
+            let mut b = bytes.clone();
+            b.extend_from_slice(sfx);
+            for via_file in [false, true] {
+                bump(&mut out.events, if via_file { "Ontology::from_binary(damaged)" } else { "Ontology::from_bytes(damaged)" });
+                match drive::from_bytes_route(&b, via_file) {
+                    Ok(_) => out.violate(
+                        "C08",
+                        &format!("extended_file_accepted/v{v}/{}", if via_file { "from_binary" } else { "from_bytes" }),
+                        format!("valid v{v} file followed by {name} ({} bytes) was accepted by {}", sfx.len(), if via_file { "Ontology::from_binary" } else { "Ontology::from_bytes" }),
+                    ),
+                    Err(BuildFail::Err(_)) => out.bucket("text_suffix/rejected_by_error"),
+                    Err(BuildFail::Panic(_)) => out.bucket("text_suffix/rejected_by_panic"),
+                }
+                out.bucket("suffixes_tried");
+            }
+        }
         for (name, sfx) in suffixes {
             let mut b = bytes.clone();
             b.extend_from_slice(&sfx);
@@ -319,8 +338,8 @@ impl Monitor for C08 {
     }
     fn rule(&self) -> String {
         "Calibration (every run): the harness' independent decoder parses the shipped tests/example_v1.hpo, example_v2.hpo, example.hpo, its encoder re-emits them byte-identically and the library's view of each file equals the model of the decoded facts. \
-         A fault case = one generated FactSet (2-40 terms, all record kinds, flags) encoded as v1, v2 or v3 by the independent encoder (records shuffled; parent records for all terms or only for terms with parents): the intact file must decode to exactly the model; two further record permutations must give the same observation; from_bytes(&B[..k]) must be rejected (Err or documented panic) for EVERY k in 0..len; 28 suffixes (1-8 bytes of 00/ff/random, empty section(s), copies of whole sections) must be rejected; all 255 other version-byte values must be rejected, and so must a v1 body behind a header (magic + 0, 1, 2 or 4). \
-         Distinct = (fact content, version, parent-record style); non-trivial = >= 3 terms."
+         A fault case = one generated FactSet (2-40 terms, all record kinds, flags) encoded as v1, v2 or v3 by the independent encoder (records shuffled; parent records for all terms or only for terms with parents): the intact file must decode to exactly the model; two further record permutations must give the same observation; from_bytes(&B[..k]) must be rejected (Err or documented panic) for EVERY k in 0..len; 28 suffixes (1-8 bytes of 00/ff/random, empty section(s), copies of whole sections) must be rejected, and so must six text-tool suffixes (LF, CRLF, blank, LF LF, ^Z, NUL LF) through from_bytes AND through a file read by from_binary; all 255 other version-byte values must be rejected, and so must a v1 body behind a header (magic + 0, 1, 2 or 4). \
+         bigname cases: valid v2 / v3 files with disease names of 65 535 bytes to 1 MiB (1- to 3-byte characters) decode to the model through both entry points. Distinct = (fact content, version, parent-record style); non-trivial = >= 3 terms."
             .into()
     }
     fn assumptions(&self) -> Vec<String> {
@@ -333,6 +352,9 @@ impl Monitor for C08 {
         let mut v: Vec<String> = (0..SHIPPED.len()).map(|i| format!("calib:{i}")).collect();
         for i in 0..tier.pick(70, 6000) {
             v.push(format!("rnd:{i}"));
+        }
+        for i in 0..tier.pick(3, 40) {
+            v.push(format!("bigname:{i}"));
         }
         v
     }
@@ -380,9 +402,52 @@ impl Monitor for C08 {
         if let Some(i) = label.strip_prefix("calib:") {
             let (name, v) = SHIPPED[i.parse::<usize>().unwrap() % SHIPPED.len()];
             self.calibrate(name, v, tier, &mut out);
+        } else if label.starts_with("bigname:") {
+            self.big_name_case(&mut rng, &mut out);
         } else {
             self.fault_case(label, &mut rng, tier, &mut out);
         }
         out
+    }
+}
+
+impl C08 {
+    /// Valid files whose disease records use the full width of their four-byte name length (term and
+    /// gene names have a one-byte length): the intact file decodes to what it describes. No fault
+    /// enumeration here (the files are large).
+    fn big_name_case(&self, rng: &mut Rng, out: &mut CaseOut) {
+        let cfg = GenCfg { n_min: 3, n_max: 8, defaults: true, flags: true, max_recs: 3, ..GenCfg::default() };
+        let mut facts = crate::gen::gen_facts(rng, &cfg);
+        let lens = [65_535usize, 65_536, 65_537, 70_000, 131_072, 1 << 20];
+        for k in 1..3 {
+            let id = 5_000_000 + k as u32;
+            facts.recs[k].retain(|r| r.id != id);
+            let unit = *rng.pick(&["D", "é", "名"]);
+            let n = *rng.pick(&lens);
+            let name = unit.repeat(n / unit.len());
+            let terms: Vec<u32> = facts.terms.iter().map(|t| t.id).filter(|_| rng.chance(1, 2)).collect();
+            let pos = rng.usize_below(facts.recs[k].len() + 1);
+            facts.recs[k].insert(pos, crate::facts::RecFact { id, name, terms });
+        }
+        out.nontrivial = true;
+        for v in [2u8, 3] {
+            let view = facts.binary_view(v);
+            let (bytes, _) = encode(&view, &EncodeOpts { version: v, emit_empty_parent_records: true, parent_record_order: None, split_parent_records: None });
+            out.sig = hash_u64s(&[view.content_hash(), u64::from(v), 77]);
+            out.case = Json::obj().set("version", Json::u(u64::from(v))).set("bytes", Json::us(bytes.len()));
+            out.bucket("layout/disease_names_of_64_KiB_and_more");
+            for via_file in [false, true] {
+                bump(&mut out.events, if via_file { "Ontology::from_binary" } else { "Ontology::from_bytes" });
+                match drive::from_bytes_route(&bytes, via_file) {
+                    Ok(ont) => {
+                        let (_m, _obs, diffs) = walk_and_diff(&view, true, &ont, out);
+                        for d in &diffs {
+                            out.violate("C08", &format!("decode_v{v}/{}", d.site), d.detail.clone());
+                        }
+                    }
+                    Err(e) => out.violate("C08", &format!("valid_v{v}_rejected"), format!("valid v{v} file with a disease name of 64 KiB or more rejected: {e}")),
+                }
+            }
+        }
     }
 }
